@@ -16,7 +16,8 @@ def _all(f):
     return True
 
 
-prop("C03", ["take_range", "sort_take", "limit_clause", "flatten_sort", "sort_infer", "lower_transform"],
+prop("C03", ["take_range", "sort_take", "limit_clause", "flatten_sort", "sort_infer", "lower_transform", "split_order"],
+     select={"split_order": lambda n: n.split(".", 1)[1] in ("RO1", "RO2", "RO3", "reorder_should_swap.safety", "SO1.Take.Compute", "IC1", "IC2", "IC3")},
      not_covered="alias_last_sorting and CidRedirector::redirect_sorts (how the sorting is re-expressed across cid redirects: folds over PQ with HashMap state); the driver loops of the sort inference (its step and the CTE record are under contract), "
                  "ensure_names for sort columns; the recursion of Flattener::fold_expr itself (the arms are proved against its contract)")
 
